@@ -227,8 +227,10 @@ static inline void myth_sleep_stack_destroy(myth_sleep_stack_t * s) {
 
 static inline myth_sleep_queue_item_t myth_sleep_stack_pop(myth_sleep_stack_t * s) {
   while (1) {
+    MYTH_VERIF_POINT(MYTH_VS_SSTACK_RD);
     myth_sleep_queue_item_t x = s->top;
     if (x == 0) return x;
+    MYTH_VERIF_POINT(MYTH_VS_SSTACK_CAS);
     if (__sync_bool_compare_and_swap(&s->top, x, x->next)) {
       return x;
     }
@@ -237,8 +239,10 @@ static inline myth_sleep_queue_item_t myth_sleep_stack_pop(myth_sleep_stack_t * 
 
 static inline long myth_sleep_stack_push(myth_sleep_stack_t * s, myth_sleep_queue_item_t x) {
   while (1) {
+    MYTH_VERIF_POINT(MYTH_VS_SSTACK_RD);
     myth_sleep_queue_item_t t = s->top;
     x->next = t;
+    MYTH_VERIF_POINT(MYTH_VS_SSTACK_CAS);
     if (__sync_bool_compare_and_swap(&s->top, t, x)) {
       return 0;
     }
